@@ -858,4 +858,81 @@ theorem lowerB_eq_zero {a : Byte} : lowerB a = 0#8 ↔ a = 0#8 := by
     · rwa [if_neg c] at h
   · intro h; subst h; decide
 
+
+/-! ## strlwr / strupr -/
+
+theorem scInt_range (b : Byte) (lo hi : Int) (hlo : 0 ≤ lo) (hhi : hi < 128) :
+    (lo ≤ scInt b ∧ scInt b ≤ hi) ↔ (lo ≤ (b.toNat : Int) ∧ (b.toNat : Int) ≤ hi) := by
+  unfold scInt
+  rw [BitVec.toInt_eq_toNat_cond]
+  have := b.isLt
+  split <;> omega
+
+theorem caseLoop_spec (lo hi : Int) (delta : Byte) (g : Byte → Byte)
+    (hg : ∀ b, g b = if lo ≤ scInt b ∧ scInt b ≤ hi then b + delta else b)
+    (l : List Byte) (m : Mem) (s fuel : Nat) (h : CStr m s l) (hf : l.length < fuel) :
+    ∃ m', caseLoop lo hi delta fuel m s = some m' ∧ Holds m' s (l.map g ++ [0#8]) ∧
+      SameOutside m m' s l.length := by
+  induction l generalizing m s fuel with
+  | nil =>
+    obtain ⟨f, rfl⟩ : ∃ f, fuel = f + 1 := ⟨fuel - 1, by simp at hf; omega⟩
+    refine ⟨m, by simp [caseLoop, cstr_nil.mp h], ?_, SameOutside.refl _ _ _⟩
+    simpa [holds_cons, Holds.nil] using cstr_nil.mp h
+  | cons b l ih =>
+    obtain ⟨f, rfl⟩ : ∃ f, fuel = f + 1 := ⟨fuel - 1, by simp at hf; omega⟩
+    obtain ⟨h1, h2, h3⟩ := cstr_cons.mp h
+    simp only [List.length_cons] at hf
+    have hmap : (m s).isSome := by simp [h1]
+    by_cases hc : lo ≤ scInt b ∧ scInt b ≤ hi
+    · obtain ⟨m', e, hh, ho⟩ := ih (upd m s (b + delta)) (s + 1) f (cstr_upd_outside _ h3 (by omega)) (by omega)
+      refine ⟨m', by simp [caseLoop, h1, h2, hc, wr_upd hmap, e], ?_, sameOutside_upd_cons ho⟩
+      have := holds_cons_of_upd ho hh
+      simpa [hg b, hc] using this
+    · obtain ⟨m', e, hh, ho⟩ := ih m (s + 1) f h3 (by omega)
+      refine ⟨m', by simp [caseLoop, h1, h2, hc, e], ?_, ?_⟩
+      · simp only [List.map_cons, List.cons_append, holds_cons]
+        refine ⟨?_, hh⟩
+        rw [ho s (by omega), h1, hg b, if_neg hc]
+      · intro j hj; simp only [List.length_cons] at hj; exact ho j (by omega)
+
+theorem lowerB_eq (b : Byte) : lowerB b = if (65 : Int) ≤ scInt b ∧ scInt b ≤ 90 then b + 32#8 else b := by
+  unfold lowerB
+  have := scInt_range b 65 90 (by omega) (by omega)
+  by_cases h : 65 ≤ b.toNat ∧ b.toNat ≤ 90
+  · rw [if_pos h, if_pos (this.mpr (by omega))]
+  · rw [if_neg h, if_neg (fun c => h (by have := this.mp c; omega))]
+
+theorem upperB_eq (b : Byte) : upperB b = if (97 : Int) ≤ scInt b ∧ scInt b ≤ 122 then b + (-32#8) else b := by
+  unfold upperB
+  have := scInt_range b 97 122 (by omega) (by omega)
+  by_cases h : 97 ≤ b.toNat ∧ b.toNat ≤ 122
+  · rw [if_pos h, if_pos (this.mpr (by omega)), BitVec.sub_eq_add_neg]
+  · rw [if_neg h, if_neg (fun c => h (by have := this.mp c; omega))]
+
+/-! ## strcat -/
+
+/-- `do { c = *s2++; *++s1 = c; } while (c);` copies the string at `s2` to `s1 + 1` -/
+theorem strcatCopy_spec (l : List Byte) (m : Mem) (s1 s2 fuel : Nat) (hs : CStr m s2 l)
+    (hd : Mapped m (s1 + 1) (l.length + 1)) (hdis : Disjoint (s1 + 1) (l.length + 1) s2 (l.length + 1))
+    (hf : l.length < fuel) :
+    ∃ m', strcatCopy fuel m s1 s2 = some m' ∧ Holds m' (s1 + 1) (l ++ [0#8]) ∧
+      SameOutside m m' (s1 + 1) (l.length + 1) := by
+  induction l generalizing m s1 s2 fuel with
+  | nil =>
+    obtain ⟨f, rfl⟩ : ∃ f, fuel = f + 1 := ⟨fuel - 1, by simp at hf; omega⟩
+    have hd0 : (m (s1 + 1)).isSome := by simpa using hd 0 (by omega)
+    refine ⟨upd m (s1 + 1) 0#8, by simp [strcatCopy, cstr_nil.mp hs, wr_upd hd0], ?_, ?_⟩
+    · simp [holds_cons, Holds.nil]
+    · intro j hj; simp at hj; exact upd_other _ _ (by omega)
+  | cons b l ih =>
+    obtain ⟨f, rfl⟩ : ∃ f, fuel = f + 1 := ⟨fuel - 1, by simp at hf; omega⟩
+    obtain ⟨h1, h2, h3⟩ := cstr_cons.mp hs
+    simp only [List.length_cons] at hd hdis hf
+    rw [mapped_succ] at hd
+    unfold Disjoint at hdis
+    obtain ⟨m', e, hh, ho⟩ := ih (upd m (s1 + 1) b) (s1 + 1) (s2 + 1) f
+      (cstr_upd_outside b h3 (by omega)) (mapped_upd hd.2) (by unfold Disjoint; omega) (by omega)
+    refine ⟨m', by simp [strcatCopy, h1, h2, wr_upd hd.1, e], ?_, sameOutside_upd_cons ho⟩
+    simpa using holds_cons_of_upd ho hh
+
 end Igris.C08
